@@ -1,0 +1,25 @@
+//go:build verif
+
+package api
+
+// Contracts for govc (see /verif/DESIGN.md, C15 / C20). Comment-only; compiled only with -tags verif.
+
+// ---- C15: the byte size of a capacity request is exact (no wrap-around) and checked against the free space
+
+//@ func checkMinerDiskSize
+//@   requires sk != nil
+//@   ensures accepted-is-exact-and-fits: err == nil ==> requiredMiBytes * 1048576 <= 18446744073709551615 && requiredMiBytes * 1048576 >= 100663296
+//@   assert-at return#5 fits-free-space: requiredBytes <= availableBytes && requiredBytes == requiredMiBytes * 1048576
+
+//@ func checkPathDiskSize
+//@   ensures accepted-is-exact-and-fits: err == nil ==> requiredMiBytes * 1048576 <= 18446744073709551615 && requiredMiBytes * 1048576 >= 100663296
+//@   assert-at return#5 fits-free-space: requiredBytes <= usage.Free && requiredBytes == requiredMiBytes * 1048576
+
+//@ func checkMinerPathCapacity
+//@   requires sk != nil
+//@   assert-at call IsCapacityAvailable exact-bytes: arg2 == requiredMiBytes * 1048576
+
+//@ func (*Server).ConfigureCapacity
+//@   attr wraps in.Capacity*poc.MiB
+//@   assert-at call checkMinerDiskSize checks-the-configured-size: arg1 == in.Capacity && diskSize == (in.Capacity * 1048576) % 18446744073709551616
+//@   assert-at call ConfigureBySize configures-the-checked-size: arg1 == diskSize
